@@ -62,9 +62,10 @@ class P(Profile):
     late_boot = 0.0
     sequences = (1, 1, 2, 0)
     startsecs = (0, 1, 6)
-    stopwaitsecs = (1, 7)
+    stopwaitsecs = (1, 7, 12)
     wait_exit = 0.0
     behaviours = False
+    default_behaviours = ('run', 'run', 'very_slow_stop', 'ignore_term')
     loads = (0, 10, 20)
     explicit_identifiers = 0.2
     starting = ('LESS_LOADED', 'MOST_LOADED', 'CONFIG', 'LESS_LOADED_NODE')
@@ -83,6 +84,8 @@ class FailureMonitor(Monitor):
         self.distributions = []    # times at which an instance published DISTRIBUTION
         self.warm = False
         self.exits = {}
+        self.user_stops = {}       # application -> (time, idx, inc, requested on the Master)
+        self.stop_watch = {}       # application -> (time of the loss, idx lost) while its stop job was in progress
 
     def on_warmup_end(self, world):
         self.warm = True
@@ -91,6 +94,15 @@ class FailureMonitor(Monitor):
         if ptype.name == 'STATE' and body.get('fsm_statename') == 'DISTRIBUTION':
             self.distributions.append(inst.world.now)
 
+    def on_user_rpc(self, inst, name, args, outcome):
+        if name == 'supvisors.stop_application' and outcome[0] in ('ok', 'deferred') and self.warm:
+            app = args[0]
+            self.user_stops[app] = (inst.world.now, inst.idx, inst.incarnation, inst.supvisors.state_modes.is_master())
+            # a user request is one more disturbance for the per-application judgement
+            self.events.setdefault(app, []).append({'time': inst.world.now, 'kind': 'user-stop', 'idx': inst.idx, 'lost': []})
+            self.events[app].append({'time': inst.world.now, 'kind': 'user-stop', 'idx': inst.idx, 'lost': []})
+            self.flags.add('user-stop')
+
     def on_request(self, inst, identifier, rtype, body):
         if rtype.name not in ('START_PROCESS', 'STOP_PROCESS'):
             return
@@ -98,6 +110,17 @@ class FailureMonitor(Monitor):
         namespec = body[0]
         kind = 'start' if rtype.name == 'START_PROCESS' else 'stop'
         self.requests.append((w.now, inst.idx, kind, namespec, identifier))
+        app_name = self.ref.progs.get(namespec, {}).get('app')
+        if kind == 'start' and app_name in self.stop_watch:
+            t_loss, lost = self.stop_watch[app_name]
+            _t, ridx, rinc, _m = self.user_stops[app_name]
+            # by the same Master, outside a re-distribution (a new Master restarts failed applications, as documented)
+            if w.now - t_loss <= 90 and (inst.idx, inst.incarnation) == (ridx, rinc) \
+                    and not any(d >= t_loss for d in self.distributions):
+                self.findings.append(('process-with-planned-stop-also-repaired', f't={w.now} {inst.nick} requests the start '
+                                      f'of {namespec} on {identifier} although {app_name} was being stopped by the Master '
+                                      f'(user stop_application at t={self.user_stops[app_name][0]}) when s{lost + 1} was lost '
+                                      f'at t={t_loss}: the processes of {app_name} had a stop job planned'))
         if not inst.supvisors.state_modes.is_master():
             self.findings.append(('request-by-non-master', f't={w.now} {inst.nick} ({inst.supvisors.fsm.state.name}, Master '
                                   f'for it: {inst.supvisors.state_modes.master_identifier or "none"}) requests the {kind} '
@@ -123,6 +146,15 @@ class FailureMonitor(Monitor):
             was = self.prev_alive.get(inst.idx, False)
             if was and not inst.alive and self.warm:
                 truth = self.prev_truth.get(inst.idx, {})
+                # a loss while the Master is stopping an application at the request of the user
+                for app_name, (t_stop, ridx, rinc, on_master) in self.user_stops.items():
+                    req = world.instances[ridx]
+                    if on_master and req.alive and req.incarnation == rinc and req is not inst \
+                            and req.supvisors.state_modes.is_master() \
+                            and app_name in req.supvisors.stopper.get_application_job_names() \
+                            and any(truth.get(q['namespec']) in (10, 20, 30, 40) for q in self.ref.apps[app_name]['programs']):
+                        self.stop_watch[app_name] = (world.now, inst.idx)
+                        self.flags.add('loss-during-user-stop')
                 # processes that ran only there
                 for app in self.ref.apps.values():
                     hosted = [q['namespec'] for q in app['programs'] if truth.get(q['namespec']) in ACTIVE]
@@ -271,6 +303,12 @@ def c06_episode_st(draw):
     for _ in range(draw(st.sampled_from([1, 1, 1, 2, 3]))):
         pos = draw(st.integers(0, len(steps) - 1))
         steps[pos].setdefault('ops', []).append(draw(op_st(config, kinds, specs)))
+    if config.get('apps') and draw(st.integers(0, 9)) < 3:
+        # the user stops an application on the Master and an instance hosting children is lost during the stop sequence
+        pos = draw(st.integers(0, len(steps) - 6))
+        app = draw(st.sampled_from([a['name'] for a in config['apps']]))
+        steps[pos].setdefault('ops', []).append(['rpc_master', 'stop_application', [app, False]])
+        steps[pos + draw(st.integers(1, 4))].setdefault('ops', []).append(['crash_host', draw(st.integers(0, 7))])
     episode['steps'] = steps
     return episode
 
